@@ -5,8 +5,16 @@ mod kani_h {
     // PNG specification 9.4, transcribed
     fn paeth_spec(a: u8, b: u8, c: u8) -> u8 {
         let p = a as i32 + b as i32 - c as i32;
-        let pa = (p - a as i32).abs(); let pb = (p - b as i32).abs(); let pc = (p - c as i32).abs();
-        if pa <= pb && pa <= pc { a } else if pb <= pc { b } else { c }
+        let pa = (p - a as i32).abs();
+        let pb = (p - b as i32).abs();
+        let pc = (p - c as i32).abs();
+        if pa <= pb && pa <= pc {
+            a
+        } else if pb <= pc {
+            b
+        } else {
+            c
+        }
     }
     #[kani::proof]
     fn c07_paeth_predictor_png_spec() {
@@ -17,9 +25,18 @@ mod kani_h {
     fn c01_hex_digit_value() {
         let ch: u8 = kani::any();
         let r = hex_digit_value(ch);
-        let spec = if ch.is_ascii_digit() { Some(ch - b'0') } else if (b'A'..=b'F').contains(&ch) { Some(ch - b'A' + 10) }
-                   else if (b'a'..=b'f').contains(&ch) { Some(ch - b'a' + 10) } else { None };
+        let spec = if ch.is_ascii_digit() {
+            Some(ch - b'0')
+        } else if (b'A'..=b'F').contains(&ch) {
+            Some(ch - b'A' + 10)
+        } else if (b'a'..=b'f').contains(&ch) {
+            Some(ch - b'a' + 10)
+        } else {
+            None
+        };
         assert!(r == spec);
-        if let Some(v) = r { assert!(v < 16); }
+        if let Some(v) = r {
+            assert!(v < 16);
+        }
     }
 }
